@@ -1,5 +1,122 @@
-import StraxModel.Model.Basic
+import StraxModel.Lemmas.IntervalAlgos
+/-
+  C17 — interval primitives agree with their set-theoretic definitions.
+
+  Every theorem has the form `algorithm = direct quadratic definition` under the documented precondition, for all
+  inputs (no bound on sizes).  Models: `Model/IntervalAlgos.lean`; definitions (`fcInSpec`, `touchSpec`, `overlapSpec`,
+  `findBreakSpec`, …) and helper lemmas: `Lemmas/IntervalAlgos.lean`.  Hypotheses are the Boolean deciders the model
+  (and the real `_check_*` helpers) evaluate.
+-/
 namespace Strax.C17
-open Strax
+open Strax Strax.IntervalAlgos
+
+/-! ### fully_contained_in -/
+
+/-- `fully_contained_in` returns, for every thing, the index of the first container that contains it as a subset
+(`b.time ≤ a.time ∧ a.endt ≤ b.endt`), or `-1`: containers sorted and non-overlapping, things sorted and of
+positive length. -/
+theorem fcIn_spec (things containers : List Row)
+    (ht : sortedByTimeB things = true) (hc : sortedByTimeB containers = true)
+    (hn : nonOverlapB containers = true) (hpt : positiveRowsB things = true) (hnc : nonNegB containers = true) :
+    fullyContainedIn things containers = .ok (fcInSpec subsetOf things containers) := by
+  have hnt : nonNegB things = true :=
+    nonNegB_iff.2 fun r hr => Int.le_of_lt (positiveRowsB_iff.1 hpt r hr)
+  rw [fullyContainedIn_eq_spec ht hc hnt hnc hn, fcInSpec_congr hpt]
+
+/-- the same for every input the wrapper accepts (zero-length things allowed): a zero-length thing `[t,t)` is
+located like the instant `t`, i.e. `containedIn a b = b.time ≤ a.time ∧ a.endt ≤ b.endt ∧ a.time < b.endt`. -/
+theorem fcIn_spec_instant (things containers : List Row)
+    (ht : sortedByTimeB things = true) (hc : sortedByTimeB containers = true)
+    (hn : nonOverlapB containers = true) (hnt : nonNegB things = true) (hnc : nonNegB containers = true) :
+    fullyContainedIn things containers = .ok (fcInSpec containedIn things containers) :=
+  fullyContainedIn_eq_spec ht hc hnt hnc hn
+
+/-- the jitted core `_fully_contained_in` needs neither non-negative lengths nor the wrapper -/
+theorem fcIn_core_spec (things containers : List Row)
+    (ht : sortedByTimeB things = true) (hc : sortedByTimeB containers = true) (hn : nonOverlapB containers = true) :
+    fcInCore things containers = fcInSpec containedIn things containers :=
+  fcInCore_eq_spec ht hc hn
+
+/-- The instant reading is forced by the code: with the plain subset relation the statement is false for a
+zero-length thing that sits on the exclusive end of a container (`[5,5)` against `[0,5)` gives `-1`). -/
+theorem fcIn_zero_length_counterexample :
+    fullyContainedIn [⟨5, 5, 0⟩] [⟨0, 5, 0⟩] ≠ .ok (fcInSpec subsetOf [⟨5, 5, 0⟩] [⟨0, 5, 0⟩]) := by
+  decide
+
+example : sortedByTimeB [⟨0, 2, 0⟩, ⟨2, 3, 1⟩, ⟨6, 7, 2⟩] = true ∧ positiveRowsB [⟨0, 2, 0⟩, ⟨2, 3, 1⟩, ⟨6, 7, 2⟩] = true ∧
+    sortedByTimeB [⟨0, 3, 0⟩, ⟨3, 5, 1⟩, ⟨6, 9, 2⟩] = true ∧ nonOverlapB [⟨0, 3, 0⟩, ⟨3, 5, 1⟩, ⟨6, 9, 2⟩] = true ∧
+    nonNegB [⟨0, 3, 0⟩, ⟨3, 5, 1⟩, ⟨6, 9, 2⟩] = true ∧
+    fullyContainedIn [⟨0, 2, 0⟩, ⟨2, 3, 1⟩, ⟨6, 7, 2⟩] [⟨0, 3, 0⟩, ⟨3, 5, 1⟩, ⟨6, 9, 2⟩] = .ok [0, 0, 2] := by decide
+
+/-! ### touching_windows -/
+
+/-- `touching_windows` returns for every container `(l, r)` with `l` = number of things that end at or before
+`c.time - window` and `r` = number of things that start before `c.endt + window`; any window, also negative.
+Things sorted by time and by endtime, containers sorted by time (they may overlap), non-negative lengths. -/
+theorem touching_windows_spec (things containers : List Row) (window : Int)
+    (ht : sortedByTimeB things = true) (he : sortedByEndB things = true) (hc : sortedByTimeB containers = true)
+    (hnt : nonNegB things = true) (hnc : nonNegB containers = true) :
+    touchingWindows things containers window = .ok (touchSpec things containers window) :=
+  touchingWindows_eq_spec window ht he hc hnt hnc
+
+/-- … and the half-open index range `[l, r)` of that definition is exactly the set of things that reach to within
+`window` of the container (`c.time - window < x.endt ∧ x.time < c.endt + window`). -/
+theorem touching_windows_mem (things : List Row) (c : Row) (window : Int)
+    (ht : sortedByTimeB things = true) (he : sortedByEndB things = true) (k : Nat) (hk : k < things.length) :
+    (things.countP (fun x => decide (x.endt ≤ c.time - window)) ≤ k ∧
+      k < things.countP (fun x => decide (x.time < c.endt + window))) ↔ touches things[k] c window :=
+  touching_window_mem c window ht he k hk
+
+/-- the jitted core `_touching_windows` -/
+theorem touching_windows_core_spec (things containers : List Row) (window : Int)
+    (ht : sortedByTimeB things = true) (he : sortedByEndB things = true) (hc : sortedByTimeB containers = true) :
+    touchingWindowsCore things containers window = touchSpec things containers window :=
+  touchingWindowsCore_eq_spec window hc ht he
+
+/-- non-vacuity: the hypotheses hold on a concrete instance with overlapping containers and a negative window, and the
+theorem computes its answer (`mergeSort` does not reduce by `decide`, so the instance goes through the theorem) -/
+example : touchingWindows [⟨0, 2, 0⟩, ⟨1, 4, 1⟩, ⟨6, 7, 2⟩] [⟨2, 9, 0⟩, ⟨3, 5, 1⟩] (-1) = .ok [(1, 3), (2, 2)] := by
+  rw [touching_windows_spec _ _ _ (by decide) (by decide) (by decide) (by decide) (by decide)]
+  decide
+
+/-! ### overlap_indices -/
+
+/-- pure arithmetic: the returned index ranges are those of `[a1, a1+n_a) ∩ [b1, b1+n_b)`, zeros when it is empty -/
+theorem overlap_indices_spec (a1 nA b1 nB : Int) (ha : 0 ≤ nA) (hb : 0 ≤ nB) :
+    overlapIndices a1 nA b1 nB = .ok (overlapSpec a1 nA b1 nB) :=
+  overlapIndices_eq_spec a1 nA b1 nB ha hb
+
+theorem overlap_indices_rejects_negative (a1 nA b1 nB : Int) (h : nA < 0 ∨ nB < 0) :
+    overlapIndices a1 nA b1 nB = .error Err.valueError := by
+  simp [overlapIndices, h]; rfl
+
+example : overlapIndices 0 5 3 5 = .ok ((3, 5), (0, 2)) := by decide
+
+/-! ### _find_break_i -/
+
+/-- `_find_break_i` returns the first index `i ≥ 1` whose row starts at least `safe_break` after the running maximum
+of `not_before` and all earlier ends, and raises `NoBreakFound` iff there is none; any input with at least two rows. -/
+theorem find_break_spec (data : List Row) (safeBreak notBefore : Int) (h : 2 ≤ data.length) :
+    findBreakI data safeBreak notBefore = findBreakSpec data safeBreak notBefore :=
+  findBreakI_eq_spec data safeBreak notBefore h
+
+example : findBreakI [⟨0, 2, 0⟩, ⟨1, 5, 1⟩, ⟨6, 7, 2⟩, ⟨9, 10, 3⟩] 2 0 = .ok 3 ∧
+    findBreakI [⟨0, 2, 0⟩, ⟨1, 5, 1⟩, ⟨6, 7, 2⟩, ⟨9, 10, 3⟩] 2 8 = .error Err.noBreakFound := by decide
+
+/-! ### inputs violating sortedness are rejected -/
+
+/-- the checking wrappers answer `ValueError`, never a value, on an unsorted things / containers array or on a
+negative length -/
+theorem unsorted_rejected (things containers : List Row) (window : Int)
+    (h : sortedByTimeB things = false ∨ sortedByTimeB containers = false ∨ nonNegB things = false ∨
+      nonNegB containers = false) :
+    fullyContainedIn things containers = .error Err.valueError ∧
+    splitByContainment things containers = .error Err.valueError ∧
+    touchingWindows things containers window = .error Err.valueError := by
+  refine ⟨?_, ?_, touchingWindows_error window h⟩
+  · simp only [fullyContainedIn, sanity_error h]
+  · simp only [splitByContainment, sanity_error h]
+
+example : sortedByTimeB [⟨3, 4, 0⟩, ⟨2, 3, 1⟩] = false ∧ nonNegB [⟨3, 2, 0⟩] = false := by decide
 
 end Strax.C17
